@@ -52,7 +52,7 @@ int snoopy_util_syslog_convertFacilityToInt (const char *facilityStr)
     facilityStrAdj = facilityStr;
 
     // If there is LOG_ prefix, loose it.
-    if ('_' == facilityStr[3]) {
+    if (0 == strncmp(facilityStr, "LOG_", 4)) {
         facilityStrAdj = &facilityStr[4];
     }
 
@@ -146,7 +146,7 @@ int snoopy_util_syslog_convertLevelToInt (const char *levelStr)
     levelStrAdj = levelStr;
 
     // If there is LOG_ prefix, loose it.
-    if ('_' == levelStr[3]) {
+    if (0 == strncmp(levelStr, "LOG_", 4)) {
         levelStrAdj = &levelStr[4];
     }
 
